@@ -288,6 +288,11 @@ mut("c18-smt-set-validates-after-first-write", ["C18"], SMT,
     "        validate_is_bytes(key)\n        validate_length(key, self._key_size)\n\n        path = to_int(key)\n        node = value\n        _, branch = self._get(key)\n        self.db[b\"last-set\"] = key\n        validate_is_bytes(value)",
     suite=True, note="the value is validated only after a bookkeeping write: a refused call changes the database")
 
+mut2("c06-default-refcount-shared-between-tries", ["C06"], [
+    (HX, "class _PartialTraversal(Exception):", "_DEFAULT_REF_COUNT = defaultdict(int)\n\n\nclass _PartialTraversal(Exception):"),
+    (HX, "            if prune:\n                self._ref_count = defaultdict(int)\n", "            if prune:\n                self._ref_count = _DEFAULT_REF_COUNT\n"),
+], suite=None, note="the default reference-count table is one module-level object: two pruning tries in one process share their counts")
+
 quiet("q-no-shortcircuit-delete-branch", ["C01", "C02", "C06"], HX,
       "        if encoded_sub_node == node[trie_key[0]]:\n            # If no change, (value already empty), short-circuit and skip any other work\n            return node\n\n        node[trie_key[0]] = encoded_sub_node",
       "        node[trie_key[0]] = encoded_sub_node",
